@@ -101,3 +101,9 @@ def fill(claim, NA):
         "Trusted: CrossHair+z3 (table indices and structure choices, completeness certified); vlib/ref608.py (written from the standard, calibrated against pycaption's tables once); well-formedness preconditions listed in the evidence. One known finding (0x7F solid block dropped) is excluded and re-found on every run.",
         "CrossHair symbolic execution + z3 over code-table indices and program shapes, reference-decoder oracle",
     )
+    claim(
+        "C06",
+        "The AST of _SccTimeTranslator._translate_time is encoded as exact IEEE-754-in-LIA queries: for every timecode (HH <= 99, MM/SS <= 59, frame field up to 300 = line timecode plus words sent), drop and non-drop, without offset and with offsets of 1 s and 3600 s (more, and symbolic 0..600 s, in thorough) the result is within 2^-10 microseconds of the exact rational instant floored at zero. The pop-on schedule (start at the EOC word, end at the next EDM/EOC, five-frame joining, four-second default, transmission order, rejection of a display shorter than 0.05 s) is checked by bounded symbolic execution of the public read() over stream-shape selectors against an exact-rational reference schedule.",
+        "Trusted: z3; AST->LIA translator (validated on concrete timecodes every run; the stamp's regex shape check is stubbed there and executed for real in the E1 part); CrossHair for the finite stream shapes with concrete timecodes.",
+        "AST->QF_LIA exact binary64 encoding (z3) + CrossHair symbolic execution over stream shapes",
+    )
